@@ -93,6 +93,11 @@ func init() {
 		Rules: []func(*Prog, *Result){ruleC03, ruleC03Strip, ruleBklMainInputs},
 	})
 	register(PropSpec{
+		ID:    "C05",
+		Title: "Output round-trips in every format: what bkl writes reads back unchanged",
+		Rules: []func(*Prog, *Result){ruleC05Table, ruleC05Sep, ruleC05All, ruleBklMainFormat},
+	})
+	register(PropSpec{
 		ID:    "C09",
 		Title: "Evaluation is deterministic",
 		Rules: []func(*Prog, *Result){ruleMapRanges, ruleSortedMap, ruleGlobals, ruleNondetSources},
